@@ -344,7 +344,17 @@ func (g *gen) genFwd() fwdSpec {
 // spoil makes a forwarding invalid or mismatched in one way.
 func (g *gen) spoil(f *fwdSpec) string {
 	r := g.r
-	switch r.Intn(14) {
+	switch r.Intn(15) {
+	case 14:
+		if f.kind == "hyp" {
+			// a max fee the SDK refuses to put into a coin set, or harmless oddities of fee and gas limit
+			f.feeDenom = rng.Pick(r, []string{"1bad", "x", "a b", "", sim.USDC, "ufoo", sim.USDC})
+			f.feeAmt = rng.Pick(r, []*big.Int{big.NewInt(1), big.NewInt(-1), big.NewInt(0), new(big.Int).Lsh(big.NewInt(1), 255), big.NewInt(-1000000)})
+			f.gas = rng.Pick(r, []*big.Int{big.NewInt(0), big.NewInt(-5), new(big.Int).Lsh(big.NewInt(1), 255)})
+			return "hyp-odd-max-fee"
+		}
+		f.pass = r.Bytes(rng.Pick(r, []int{1, 100, 1200}))
+		return "passthrough"
 	case 0:
 		f.pid = rng.Pick(r, []int32{0, 1, 5, 99, -1})
 		return "bad-pid"
